@@ -15,7 +15,10 @@ def BW.bool (w : BW) (b : Bool) : BW := w.push b
 def BW.bits (w : BW) (bs : List Bool) : BW := bs.foldl (fun w b => w.push b) w
 def BW.append (w : BW) (o : BW) : BW := w ++ o
 def BW.padByte (w : BW) : BW := w.bits (List.replicate (padLen w.size) false)
-def BW.toBytes (w : BW) : List Nat := bitsToBytes w.toList
+/-- pack into bytes, LSB first, zero padded (same function as `bitsToBytes`, linear time) -/
+def BW.toBytes (w : BW) : List Nat :=
+  (List.range ((w.size + 7) / 8)).map fun i =>
+    (List.range 8).foldl (fun acc j => if w.getD (8 * i + j) false then acc + 2 ^ j else acc) 0
 
 /-- one distribution of a `U32(d0, d1, d2, d3)` field -/
 inductive Dist where
